@@ -65,6 +65,7 @@ class E3(object):
         self._done_idx = set()
         self.invariants = {}
         self.unguarded_consumers = {}
+        self.unproved = []
         self.counts = {"fk_delete": 0, "fk_insert": 0, "unique": 0,
                        "child_delete": 0, "index": 0, "parent_insert": 0}
         self.children = {}
@@ -162,6 +163,12 @@ class E3(object):
         for (ctab, f, pk) in self.children.get(tbl, []):
             self.counts["fk_delete"] += 1
             ok, how = self._covered(e, eq, tbl, ctab, f, pk, prior, loops)
+            if not ok and self._coverage_unproved(ctab, f, prior):
+                self.unproved.append(
+                    "%s: rows of `%s` are deleted earlier in the transaction by their own "
+                    "key, but the analyser cannot relate that selection to the deleted "
+                    "`%s` rows (%s)" % (construct_of(e), ctab, tbl, how))
+                continue
             self.add("fk_delete", "%s [child %s]" % (construct_of(e), ctab), e, ok,
                      how if ok else
                      "rows of `%s` referencing the deleted `%s` rows are not "
@@ -178,6 +185,22 @@ class E3(object):
                      how if ok else
                      "rows of `%s` are deleted without deleting their `%s` row "
                      "in the same transaction (%s)" % (tbl, ptab, how), path)
+
+    def _coverage_unproved(self, ctab, f, prior):
+        """a child delete keyed by the FK column or by the child's own primary
+        key precedes the parent delete, in a shape none of the coverage idioms
+        recognises: neither proved nor refuted"""
+        ctable = self.schema.tables[ctab]
+        cpk = ctable.pk[0] if ctable.pk else None
+        for x in sql_in(prior):
+            if x["stmt"].kind == "delete" and x["stmt"].table == ctab:
+                cols = set()
+                for conj in x["binds"]["dnf"]:
+                    for (c, op, term) in conj:
+                        cols.add(c)
+                if cols and cols <= {f, cpk, "app_id"} - {None}:
+                    return True
+        return False
 
     def _covered(self, e, eq, ptab, ctab, f, pk, prior, loops):
         binds = e["binds"]
@@ -651,10 +674,17 @@ class E3(object):
                      path, None if ok else "IndexError")
 
     # -- may-raise ---------------------------------------------------------------------------
+    def require_proved(self):
+        if self.unproved:
+            raise AnalysisError("E3 cannot decide foreign-key coverage: " + self.unproved[0])
+
     def may_raise(self):
+        self.require_proved()
         return [f for f in self.findings if not f.ok and f.may_raise]
 
     def by_kind(self, kind):
+        if kind in ("fk_delete",):
+            self.require_proved()
         return [f for f in self.findings if f.kind == kind]
 
 
